@@ -178,6 +178,45 @@ Theorem checkpoint_count : forall c S0 inp pop0 fuel st' G,
 Proof. exact checkpoint_count_lemma. Qed.
 Print Assumptions checkpoint_count.
 
+(* Learn-call schedule of ANY off-policy training phase, warm-up included (no readiness hypothesis): with w the
+   number of leading iterations after which the memory is still not ready, nothing is learned in those w iterations
+   and the steady schedule applies to the remaining ones, iteration indices counting from the start of the phase. *)
+Theorem learn_schedule_warmup : forall c h m,
+  (lp c = Off \/ lp c = MAOff) -> 1 <= num_envs c ->
+  let n := evo_steps c / num_envs c in
+  let w := warmup c h n m in
+  r_learn (snd (rollout c h m)) =
+    if num_envs c <? ls h then cdiv n (ls h / num_envs c) - cdiv w (ls h / num_envs c)
+    else (n - w) * (num_envs c / ls h).
+Proof. exact learn_schedule_warmup_lemma. Qed.
+Print Assumptions learn_schedule_warmup.
+
+(* what w is: the memory is not ready after each of the first w stored transitions and (if the phase is longer) ready
+   after the next one *)
+Theorem warmup_spec : forall c h n m,
+  (forall j, j < warmup c h n m -> ready c h (adds c (S j) m) = false) /\
+  (warmup c h n m < n -> ready c h (adds c (S (warmup c h n m)) m) = true).
+Proof. exact warmup_spec_lemma. Qed.
+Print Assumptions warmup_spec.
+
+(* ... and without an n-step buffer readiness is a threshold: max(batch_size, learning_delay + 1) transitions held by
+   the memory (multi-agent buffer: batch_size held and more than learning_delay ever stored) *)
+Theorem ready_threshold : forall c h j m,
+  nstep c = 0 ->
+  ready c h (adds c j m) =
+    if is_ma c
+    then (bs h <=? Nat.min (mem_cap c) (added m + j * num_envs c)) && (delay c <? added m + j * num_envs c)
+    else (Nat.max (bs h) (S (delay c)) <=? Nat.min (mem_cap c) (added m + j * num_envs c)).
+Proof. exact ready_threshold_lemma. Qed.
+Print Assumptions ready_threshold.
+
+(* train_bandits, warm-up included: learn_step learn() calls in every step but the first w (fewer than batch_size
+   contexts stored) *)
+Theorem bandit_learn_schedule_warmup : forall c h n m r,
+  r_learn (snd (rollout_bandit c h n m r)) = r_learn r + (n - warmup_bandit c h n m) * ls h.
+Proof. exact bandit_schedule_warmup_lemma. Qed.
+Print Assumptions bandit_learn_schedule_warmup.
+
 (* ---- non-vacuity: concrete runs of the model ---- *)
 Definition cfg_off : cfg :=
   {| lp := Off; num_envs := 2; evo_steps := 9; max_steps := 20; episode_steps := 0; delay := 0; mem_cap := 16;
@@ -206,6 +245,12 @@ Example elite_ok_example :
   o_elite_ok (snd (gen cfg_off (init_state [fresh_agent 0; fresh_agent 1]) (inp_off 0))) = true /\
   elite_okb cfg_off (o_tested (snd (gen cfg_off (init_state [fresh_agent 0; fresh_agent 1]) (inp_off 0)))) 0 = false.
 Proof. vm_compute. split; reflexivity. Qed.
+
+(* first individual of the example below: 4 iterations, the memory holds 2 transitions after the first one (batch 4):
+   one warm-up iteration, then iterations 1,2,3 with period 3 // 2 = 1 -> cdiv 4 1 - cdiv 1 1 = 3 learn calls *)
+Example warmup_example :
+  warmup cfg_off {| ls := 3; bs := 4 |} 4 {| added := 0; calls := 0 |} = 1.
+Proof. vm_compute. reflexivity. Qed.
 
 Example learn_schedule_example :
   map r_learn (o_roll (snd (gen cfg_off (init_state [fresh_agent 0; fresh_agent 1]) (inp_off 0)))) = [3; 8].
